@@ -242,7 +242,7 @@ def _run(ck, seed, quick, pool, nproc, t0):
     else:
         model_jobs["fresh_3threads"] = ex.submit(run_calls, "fresh3", calls_cfg([1, 2, 3], "fresh", CORE, [1, 3, 5], 3, 1),
                                                  None, 8, tmo)
-        model_jobs["fresh_2threads_2calls"] = ex.submit(run_calls, "fresh2x2", calls_cfg([1, 2], "fresh", PURE, ALLDOCS, 4, 2),
+        model_jobs["fresh_2threads_2calls"] = ex.submit(run_calls, "fresh2x2", calls_cfg([1, 2], "fresh", PURE, [1, 3, 5, 7, 8], 4, 2),
                                                         None, 4, tmo)
         model_jobs["reuse_6calls"] = ex.submit(run_calls, "reuse6", calls_cfg([1], "shared_all", PURE, ALLDOCS, 6, 6),
                                                None, 2, tmo)
